@@ -7,7 +7,7 @@ it breaks (or, with --all, all four checks). A change counts as caught when the 
 Scratch copies live under a fresh directory in /tmp and are deleted (with their build output) at the end.
 Nothing in /repo or /verif is modified except /verif/seeded/RESULTS.json (the catch matrix), rewritten on each full run.
 
-usage: selftest.py [--all] [--only <id-substring>] [--keep] [--tier quick|thorough]
+usage: selftest.py [--all] [--only <id-substring>] [--keep] [--tier quick|thorough] [--sim-rev <git rev of /verif>]
 exit 0: every seeded change was caught by the check of the property it breaks; 1: some change was missed; 2: harness error
 """
 import json, os, re, shutil, subprocess, sys, tempfile, time
@@ -38,7 +38,14 @@ def main():
     missed = 0
     try:
         # one scratch copy of the simulator crate, pointed at a scratch copy of the repository
-        shutil.copytree(f"{VERIF}/sim", f"{tmp}/sim", ignore=shutil.ignore_patterns("target"))
+        if "--sim-rev" in args:
+            # the simulator as committed at <rev> (to measure a change against the machinery that existed before it)
+            rev = args[args.index("--sim-rev") + 1]
+            rc, out = sh(["bash", "-c", f"git -C {VERIF} archive {rev} sim known_findings.json limits_baseline.json | tar -x -C {tmp}"])
+            if rc != 0:
+                print(out); print("HARNESS-ERROR: cannot export sim at " + rev); return 2
+        else:
+            shutil.copytree(f"{VERIF}/sim", f"{tmp}/sim", ignore=shutil.ignore_patterns("target"))
         toml = open(f"{tmp}/sim/Cargo.toml").read().replace('path = "/repo"', f'path = "{tmp}/repo"')
         open(f"{tmp}/sim/Cargo.toml", "w").write(toml)
         for sid in seeded:
